@@ -54,7 +54,7 @@ RULE = (
     "like builtins: abs, round, int, len, bool, float, divmod, nat, pow -- a builder that treats such calls specially by name reorders "
     "them in the call trace), conditional expressions, and/or "
     "(2-3 operands), not, chained comparisons, walrus, negative literals. ~20% of the programs are deliberately shaped like "
-    "the former defect D9 (repaired by /repo commits f9e33c1, 7c8aeda): a lifted sub-expression (conditional expression, "
+    "the former defect D9 (repaired by /repo commits f9e33c1, 7c8aeda (extended by 7121677: earlier operands that read mutable state or use operators are stored as well, 6f37109: the old value of `xs[i] op= <right-hand side with control flow>` is loaded before the right-hand side, and 2bb14bb: a stored operand takes the effectful operands to its left with it)): a lifted sub-expression (conditional expression, "
     "and/or, walrus, chained comparison) right of a side-effecting or re-assigned sibling in binary operators, comparisons, "
     "call arguments and augmented assignments (`g() + (h() if c() else k())`, `x + (x := 5)`, `x += (x := e)`, "
     "`f(g(), (y := h(x)))`, lifted operands inside both operands), and chained comparisons whose middle operand is a call, "
@@ -115,7 +115,7 @@ MANIFEST = {
     "build_operands (earlier operands stored in temporaries before a lifted operand is built), BranchBuilder incl. the chained "
     "comparison that keeps its middle operand in a temporary, constant conditions with dummy edges, update_reachable, implicit "
     "return, pruning): for EVERY program of the modelled fragment (no hoist-safety hypothesis: defect D9 was repaired in /repo by "
-    "commits f9e33c1 and 7c8aeda and the model follows the repaired builder) the built CFG, executed block by block (successor 1 on a true predicate), halts in the exit block with the same return value, "
+    "commits f9e33c1 and 7c8aeda, extended by 7121677 (operands that read mutable state or use operators) 6f37109 (old value of `xs[i] op= <lifted rhs>`) and 2bb14bb (a stored operand takes the effectful operands to its left with it), and the model follows the repaired builder) the built CFG, executed block by block (successor 1 on a true predicate), halts in the exit block with the same return value, "
     "the same trace of external calls and the same user-variable values as Python's big-step semantics of the source "
     "(by induction on the big-step derivation; termination-insensitive); every block has at most two "
     "successors and two only with a branch predicate; every non-entry block has a predecessor over a real or dummy edge "
@@ -133,7 +133,7 @@ MANIFEST = {
     "same value and report the same result sequence as CPython running the same source.",
     "level_note": "Trusted: Lean kernel + propext/Classical.choice/Quot.sound; the reading of a CFG (exec of block statements, "
     "successors[1] on a true predicate); correspondence is sampling. D9 (lifted sub-expressions hoisted before left siblings, "
-    "middle operand of a chained comparison evaluated twice) is fixed in /repo (f9e33c1, 7c8aeda); its witnesses are regression "
+    "middle operand of a chained comparison evaluated twice) is fixed in /repo (f9e33c1, 7c8aeda; 7121677, 6f37109 and 2bb14bb for operands that read mutable state / use operators, the old value of `xs[i] op= <lifted rhs>` and operands left of a stored operand); its witnesses are regression "
     "inputs (corpus/c03/d9_fixed.json) and any real-vs-CPython disagreement is a VIOLATION keyed by the input.",
     "technique": "Lean 4 proof over a hand-written builder model + differential correspondence (structure and semantics) with "
     "cfg/builder.py and CPython",
